@@ -503,6 +503,27 @@ impl ElementRaw {
             newelem.0.read().make_unique_item_name(model, &path)?;
         }
 
+        // only the copied element itself is given a unique name. If it is not identifiable, then the identifiable elements
+        // it contains could collide with existing elements (e.g. when the copy is placed next to its source)
+        if !newelem.is_identifiable() {
+            let mut path_parts: Vec<Option<String>> = vec![Some(path.clone())];
+            for (depth, sub_elem) in newelem.elements_dfs() {
+                path_parts.truncate(depth + 1);
+                if sub_elem.is_identifiable() {
+                    path_parts.push(sub_elem.item_name());
+                    let sub_elem_path = path_parts.iter().flatten().cloned().collect::<Vec<String>>().join("/");
+                    if model.get_element_by_path(&sub_elem_path).is_some() {
+                        return Err(AutosarDataError::DuplicateItemName {
+                            element: sub_elem.element_name(),
+                            item_name: sub_elem.item_name().unwrap_or_default(),
+                        });
+                    }
+                } else {
+                    path_parts.push(None);
+                }
+            }
+        }
+
         let mut path_parts: Vec<Option<String>> = vec![Some(path)];
         for (depth, sub_elem) in newelem.elements_dfs() {
             while path_parts.len() > depth + 1 {
